@@ -356,6 +356,74 @@ def _array_range_index(ex, st, args, dest_ty, func, where):
     return _seq_index(ex, st, [VRef("val", val=s), args[1]], dest_ty, func, where)
 
 
+def _clos(v):
+    if isinstance(v, VOpaque) and isinstance(v.what, tuple) and v.what[0] == "const":
+        mm = re.search(r"\{closure@[^}]*\}", str(v.what[1]))
+        if mm:
+            return VStruct(mm.group(0), [])
+    return v
+
+
+def _call_fn_value(ex, st, f, cargs, where):
+    f = _clos(f)
+    if isinstance(f, VOpaque) and isinstance(f.what, tuple) and f.what[0] == "const":
+        return ex.call(st, None, f.what[1], list(cargs), None, where)
+    return call_closure(ex, st, f, cargs, where)
+
+
+def _opt_and_then_core(ex, st, args, dest_ty, func, where):
+    opt, f = args
+    return _branch_on_option(ex, st, opt, lambda s, p: _call_fn_value(ex, s, f, [p], where), lambda s: none())
+
+
+def _opt_or_else(ex, st, args, dest_ty, func, where):
+    opt, f = args
+    return _branch_on_option(ex, st, opt, lambda s, p: some(p), lambda s: _call_fn_value(ex, s, f, [], where))
+
+
+def _opt_or(ex, st, args, dest_ty, func, where):
+    a, b = args
+    if 1 not in a.pay:
+        return b
+    return merge(simp(a.discr == 1), VEnum("Option", I(1), {1: a.pay[1]}), b)
+
+
+def _opt_map_core(ex, st, args, dest_ty, func, where):
+    opt, f = args
+    return _branch_on_option(ex, st, opt, lambda s, p: some(_call_fn_value(ex, s, f, [p], where)), lambda s: none())
+
+
+def _opt_unwrap_or_core(ex, st, args, dest_ty, func, where):
+    o, d = args
+    if 1 not in o.pay:
+        return d
+    return merge(simp(o.discr == 1), o.pay[1][0], d)
+
+
+def _opt_unwrap_or_else(ex, st, args, dest_ty, func, where):
+    opt, f = args
+    return _branch_on_option(ex, st, opt, lambda s, p: p, lambda s: _call_fn_value(ex, s, f, [], where))
+
+
+def _opt_filter(ex, st, args, dest_ty, func, where):
+    opt, f = args
+
+    def on_some(s, p):
+        r = _call_fn_value(ex, s, f, [VRef("val", val=p)], where)
+        return opt_sym(r.t, p)
+    return _branch_on_option(ex, st, opt, on_some, lambda s: none())
+
+
+def _opt_unwrap(ex, st, args, dest_ty, func, where):
+    o = args[0]
+    ex.oblig("panic", where, "unwrap/expect on None", z3.And(st.guard, o.discr != 1))
+    st.guard = simp(z3.And(st.guard, o.discr == 1))
+    if 1 not in o.pay:
+        st.guard = z3.BoolVal(False)
+        return VOpaque("unreachable")
+    return o.pay[1][0]
+
+
 def install_core(ex):
     A = ex.add_model
     A(r"^<(u\d+|usize|i\d+|isize) as (std::convert::)?From<(u\d+|bool)>>::from$", _int_from, "<uN as From<uM>>::from")
@@ -381,6 +449,14 @@ def install_core(ex):
     A(r"^core::str::<impl str>::chars$", _chars, "str::chars (string = sequence of one-byte chars)")
     A(r"^<(std::str::)?Chars<'_> as Iterator>::collect::<Vec<char>>$", _collect_chars, "Chars::collect::<Vec<char>>")
     A(r"^(std::option::)?Option::<.*>::map_or::<", _opt_map_or, "Option::map_or")
+    A(r"^(std::option::)?Option::<.*>::and_then::<", _opt_and_then_core, "Option::and_then")
+    A(r"^(std::option::)?Option::<.*>::or_else::<", _opt_or_else, "Option::or_else")
+    A(r"^(std::option::)?Option::<.*>::or$", _opt_or, "Option::or")
+    A(r"^(std::option::)?Option::<.*>::map::<", _opt_map_core, "Option::map")
+    A(r"^(std::option::)?Option::<.*>::unwrap_or$", _opt_unwrap_or_core, "Option::unwrap_or")
+    A(r"^(std::option::)?Option::<.*>::unwrap_or_else::<", _opt_unwrap_or_else, "Option::unwrap_or_else")
+    A(r"^(std::option::)?Option::<.*>::filter::<", _opt_filter, "Option::filter")
+    A(r"^(std::option::)?Option::<.*>::(unwrap|expect)$", _opt_unwrap, "Option::unwrap/expect (panic obligation)")
     A(r"^(std::option::)?Option::<.*>::is_some_and::<", _opt_is_some_and, "Option::is_some_and")
     A(r"^(std::option::)?Option::<&.*>::copied$", _opt_copied, "Option::<&T>::copied")
     A(r"^(std::option::)?Option::<.*>::is_some$", _opt_is_some, "Option::is_some")
@@ -470,6 +546,14 @@ def _map_contains(ex, st, args, dest_ty, func, where):
     entries = _map_of(ex, st, args[0])
     kid = _key_id(ex, st, args[1])
     return VBool(_present_at(entries, kid))
+
+
+def _map_len(ex, st, args, dest_ty, func, where):
+    entries = _map_of(ex, st, args[0])
+    n = simp(sum([z3.If(e.f[0].t, 1, 0) for e in entries] + [I(0)]))
+    if func.endswith("is_empty"):
+        return VBool(simp(n == 0))
+    return VInt(n, "usize")
 
 
 def _path_deref(ex, st, args, dest_ty, func, where):
@@ -591,6 +675,7 @@ def install_collections(ex, universe, sort_cap):
     A(r"^<std::collections::btree_map::(Iter|Keys)<'_, .*> as Iterator>::next$", _map_iter_next, "btree_map::{Iter,Keys}::next (ascending key order)")
     A(r"^BTreeMap::<.*>::get::<", _map_get, "BTreeMap::get")
     A(r"^BTreeMap::<.*>::contains_key::<", _map_contains, "BTreeMap::contains_key")
+    A(r"^BTreeMap::<.*>::(len|is_empty)$", _map_len, "BTreeMap::len / is_empty")
     A(r"^<PathBuf as (std::ops::)?Deref>::deref$", _path_deref, "<PathBuf as Deref>::deref (paths are ids)")
     A(r"^<PathBuf as Clone>::clone$", _path_clone, "<PathBuf as Clone>::clone")
     A(r"^<Vec<PathBuf> as Default>::default$|^<Vec<\(PathBuf, .*\)> as Default>::default$|^Vec::<\(?PathBuf.*>::new$", _vec_default, "Vec<PathBuf>::default/new")
@@ -854,6 +939,71 @@ def _strings_next(ex, st, args, dest_ty, func, where):
     return opt_sym(has, VRef("val", val=elem))
 
 
+def _char_set(ex, st, v):
+    while isinstance(v, VRef):
+        v = ex.deref(st, v)
+    if isinstance(v, VInt):
+        return [v.t]
+    if isinstance(v, VStruct) and v.name == "[array]":
+        return [x.t for x in v.f]
+    raise Unsupported("char pattern %r" % (v,))
+
+
+def _str_find(ex, st, args, dest_ty, func, where):
+    """str::find(char | [char; N]): byte index of the first matching char (one-byte chars)"""
+    s = _str_of(ex, st, args[0])
+    cs = _char_set(ex, st, args[1])
+    cap = ex.str_cap
+    ex.oblig("model-bound", where, "string longer than the model capacity %d" % cap, z3.And(st.guard, s.len > cap))
+    pos = I(-1)
+    for i in reversed(range(cap)):
+        hit = z3.And(i < s.len, z3.Or(*[s.at(I(i)) == c for c in cs]))
+        pos = z3.If(hit, I(i), pos)
+    pos = simp(pos)
+    return opt_sym(simp(pos >= 0), VInt(pos, "usize"))
+
+
+def _str_index_range(ex, st, args, dest_ty, func, where):
+    s = _str_of(ex, st, args[0])
+    return _seq_index(ex, st, [VRef("val", val=s), args[1]], dest_ty, func, where)
+
+
+def _str_len(ex, st, args, dest_ty, func, where):
+    return VInt(_str_of(ex, st, args[0]).len, "usize")
+
+
+def _str_starts_ends(ex, st, args, dest_ty, func, where):
+    s = _str_of(ex, st, args[0])
+    cap = ex.str_cap
+    ends = "ends_with" in func
+    p = args[1]
+    while isinstance(p, VRef):
+        p = ex.deref(st, p)
+    if isinstance(p, VInt):
+        idx = simp(s.len - 1) if ends else I(0)
+        return VBool(simp(z3.And(s.len > 0, s.at(idx) == p.t)))
+    q = _str_of(ex, st, p)
+    base = simp(s.len - q.len) if ends else I(0)
+    return VBool(simp(z3.And(q.len <= s.len, *[z3.Implies(k < q.len, s.at(simp(base + k)) == q.at(I(k))) for k in range(cap)])))
+
+
+def _path_starts_with(ex, st, args, dest_ty, func, where):
+    """Path::starts_with on relative paths of plain names: COMPONENT-wise prefix (not a string prefix):
+    base (trailing '/' ignored) must be a string prefix of rel that ends at a component boundary"""
+    rel = _str_of(ex, st, args[0])
+    base = _str_of(ex, st, args[1])
+    cap = ex.str_cap
+    SL = ord("/")
+    bl = I(0)
+    for i in range(cap):
+        bl = z3.If(z3.And(i < base.len, base.at(I(i)) != SL), I(i + 1), bl)
+    bl = simp(bl)
+    pre = z3.And(bl <= rel.len, *[z3.Implies(k < bl, rel.at(I(k)) == base.at(I(k))) for k in range(cap)])
+    boundary = z3.Or(rel.len == bl, rel.at(bl) == SL)
+    absolute = z3.And(base.len > 0, base.at(I(0)) == SL)
+    return VBool(simp(z3.And(z3.Not(absolute), z3.Or(bl == 0, z3.And(pre, boundary)))))
+
+
 def install_strings(ex, str_cap):
     ex.str_cap = str_cap
     ex.enums.setdefault("Component", dict(COMPONENT))
@@ -869,6 +1019,11 @@ def install_strings(ex, str_cap):
     A(r"^core::str::<impl str>::contains::<char>$", _str_contains_char, "str::contains(char)")
     A(r"^(std::path::)?Path::to_string_lossy$|^std::ffi::OsStr::to_string_lossy$", _to_string_lossy, "Path/OsStr::to_string_lossy (valid UTF-8: identity)")
     A(r"^<(std::borrow::)?Cow<'_, str> as (std::ops::)?Deref>::deref$", _string_deref, "<Cow<str> as Deref>::deref")
+    A(r"^core::str::<impl str>::find::<(char|\[char; \d+\])>$", _str_find, "str::find(char / [char; N])")
+    A(r"^<str as (std::ops::)?Index<(std::ops::)?Range\w*<usize>>>::index$|^core::str::traits::<impl (std::ops::)?Index<.*> for str>::index$", _str_index_range, "str[range] (one-byte chars)")
+    A(r"^core::str::<impl str>::len$", _str_len, "str::len")
+    A(r"^core::str::<impl str>::(starts_with|ends_with)::<", _str_starts_ends, "str::starts_with / ends_with")
+    A(r"^(std::path::)?Path::starts_with::<", _path_starts_with, "Path::starts_with (component-wise prefix, relative plain paths)")
     A(r"^(std::path::)?Path::components$", _components, "Path::components (relative path of plain names: '/'-separated non-empty pieces)")
     A(r"^<(std::path::)?Components<'_> as Iterator>::next$", _components_next, "Components::next (Normal components only, under the stated assumption)")
     ex.models = M + ex.models
